@@ -573,3 +573,221 @@ theorem C04_periodic_enforced (cfg : Config) (st : State) (ρ : Env) (hρ : Sat 
   exact C10_constraint_part cfg st ρ hρ cst hc hop
 
 end PS
+
+namespace PS
+
+/-! ### completeness of the interruption / periodic classes: the documented meaning implies the emitted formulas -/
+
+/-- the exact requirement of ResourceInterrupted on one busy interval (both duration bounds) -/
+def InterruptedExact (ρ : Env) (s e : Int) (t : Task) (ivs : List (Int × Int)) : Prop :=
+  match t.kind with
+  | .var minD maxD _ =>
+      (∀ iv ∈ ivs, (s ≤ iv.1 ∨ iv.2 ≤ s) ∧ (e ≤ iv.1 ∨ iv.2 ≤ e)) ∧
+      minD + overlapSum s e ivs ≤ ρ.i (.tDur t.name) ∧
+      (∀ m, maxD = some m → ρ.i (.tDur t.name) ≤ m + overlapSum s e ivs)
+  | _ => ∀ iv ∈ ivs, iv.2 ≤ s ∨ e ≤ iv.1
+
+theorem interruptedOne_complete (b : BusyRef) (t : Task) (ivs : List (Int × Int)) (ρ : Env)
+    (hwf : ∀ iv ∈ ivs, iv.1 < iv.2) (hse : b.sV ρ ≤ b.eV ρ)
+    (h : InterruptedExact ρ (b.sV ρ) (b.eV ρ) t ivs) : Sat ρ (interruptedOne b t ivs) := by
+  have hs : b.s.eval ρ = b.sV ρ := rfl
+  have he : b.e.eval ρ = b.eV ρ := rfl
+  unfold InterruptedExact at h
+  unfold interruptedOne
+  have hfixed : (∀ iv ∈ ivs, iv.2 ≤ b.sV ρ ∨ b.eV ρ ≤ iv.1) →
+      Sat ρ (ivs.map (fun iv => Fml.xor (.ge b.s (numT iv.2)) (.le b.e (numT iv.1)))) := by
+    intro hh a ha
+    obtain ⟨iv, hiv, rfl⟩ := List.mem_map.1 ha
+    have hlt := hwf iv hiv
+    simp only [Fml.eval, Term.eval, numT, hs, he]
+    intro hiff
+    rcases hh iv hiv with h1 | h1
+    · have := hiff.1 h1; omega
+    · have := hiff.2 h1; omega
+  cases hk : t.kind with
+  | var minD maxD al =>
+      simp only [hk] at h ⊢
+      obtain ⟨hends, hmin, hmax⟩ := h
+      have hsum := (interrupted_sum ρ b ivs hwf hends).2 hse
+      simp only [numT] at hsum
+      rw [Sat.append, Sat.append]
+      refine ⟨⟨?_, ?_⟩, ?_⟩
+      · intro a ha
+        obtain ⟨iv, hiv, hab⟩ := List.mem_flatMap.1 ha
+        have hlt := hwf iv hiv
+        have hh := hends iv hiv
+        simp only [List.mem_cons, List.mem_nil_iff, or_false] at hab
+        rcases hab with rfl | rfl
+        · simp only [Fml.eval, Term.eval, numT, hs]
+          intro hiff
+          rcases hh.1 with h1 | h1
+          · have := hiff.1 h1; omega
+          · have := hiff.2 h1; omega
+        · simp only [Fml.eval, Term.eval, numT, he]
+          intro hiff
+          rcases hh.2 with h1 | h1
+          · have := hiff.1 h1; omega
+          · have := hiff.2 h1; omega
+      · intro a ha
+        simp only [List.mem_singleton] at ha; subst ha
+        simp only [Fml.eval, Term.eval, numT, Task.dVar, hsum]
+        exact hmin
+      · cases maxD with
+        | none => exact Sat.nil
+        | some m =>
+            intro a ha
+            simp only [List.mem_singleton] at ha; subst ha
+            simp only [Fml.eval, Term.eval, numT, Task.dVar, hsum]
+            exact hmax m rfl
+  | fixed d => simp only [hk] at h ⊢; exact hfixed h
+  | zero => simp only [hk] at h ⊢; exact hfixed h
+
+/-- a masked busy interval makes one of the mask formulas true -/
+theorem masked_eval (ρ : Env) (b : BusyRef) (start : Int) (end_ : Option Int)
+    (hmask : PeriodicMasked ρ b start end_) : ∃ a ∈ periodicMasks b start end_, a.eval ρ := by
+  have hs : b.s.eval ρ = b.sV ρ := rfl
+  have he : b.e.eval ρ = b.eV ρ := rfl
+  rcases hmask with ⟨hs0, hle⟩ | ⟨en, hen, hge⟩
+  · refine ⟨Fml.le b.e (numT start), ?_, by simpa [Fml.eval, Term.eval, numT, he] using hle⟩
+    exact List.mem_append_left _ (by
+      have : start ≥ 0 := hs0
+      rw [if_pos this]; exact List.mem_singleton.2 rfl)
+  · refine ⟨Fml.ge b.s (numT en), ?_, by simpa [Fml.eval, Term.eval, numT, hs] using hge⟩
+    exact List.mem_append_right _ (by subst hen; exact List.mem_singleton.2 rfl)
+
+/-- `core`, or-ed with the masks when there are any, holds when the interval is masked or the core holds -/
+theorem masked_or_core (ρ : Env) (b : BusyRef) (start : Int) (end_ : Option Int) (core : Fml)
+    (h : PeriodicMasked ρ b start end_ ∨ core.eval ρ) :
+    (if (periodicMasks b start end_).length > 0 then Fml.or (core :: periodicMasks b start end_) else core).eval ρ := by
+  by_cases hlen : (periodicMasks b start end_).length > 0
+  · rw [if_pos hlen]
+    simp only [Fml.eval, Fml.evalAny]
+    rcases h with h | h
+    · right
+      rw [evalAny_iff]
+      exact masked_eval ρ b start end_ h
+    · left; exact h
+  · rw [if_neg hlen]
+    rcases h with h | h
+    · obtain ⟨a, ha, _⟩ := masked_eval ρ b start end_ h
+      have : (periodicMasks b start end_).length = 0 := by omega
+      rw [List.length_eq_zero_iff] at this
+      rw [this] at ha; simp at ha
+    · exact h
+
+/-- own-period disjointness gives the folded test of the periodic classes -/
+theorem periodicCore_complete (b : BusyRef) (iv : Int × Int) (p off : Int) (ρ : Env) (hlt : iv.1 < iv.2)
+    (hse : b.sV ρ ≤ b.eV ρ)
+    (h : iv.2 + off + p * ((b.sV ρ - off) / p) ≤ b.sV ρ ∨ b.eV ρ ≤ iv.1 + off + p * ((b.sV ρ - off) / p)) :
+    (periodicCore b iv p off).eval ρ := by
+  have hs : b.s.eval ρ = b.sV ρ := rfl
+  have he : b.e.eval ρ = b.eV ρ := rfl
+  have hdecomp := Int.emod_add_mul_ediv (b.sV ρ - off) p
+  simp only [periodicCore, Fml.eval, Term.eval, numT, hs, he]
+  generalize (b.sV ρ - off) % p = f at hdecomp ⊢
+  generalize (b.sV ρ - off) / p = k at hdecomp h
+  intro hiff
+  rcases h with h1 | h1
+  · have : iv.2 ≤ f := by omega
+    have := hiff.1 this
+    omega
+  · have : f + (b.eV ρ - b.sV ρ) ≤ iv.1 := by omega
+    have := hiff.2 this
+    omega
+
+theorem periodicOne_complete (b : BusyRef) (iv : Int × Int) (p start off : Int) (end_ : Option Int) (ρ : Env)
+    (hlt : iv.1 < iv.2) (hse : b.sV ρ ≤ b.eV ρ)
+    (h : PeriodicMasked ρ b start end_ ∨
+      (iv.2 + off + p * ((b.sV ρ - off) / p) ≤ b.sV ρ ∨ b.eV ρ ≤ iv.1 + off + p * ((b.sV ρ - off) / p))) :
+    (periodicOne b iv p start off end_).eval ρ := by
+  unfold periodicOne
+  apply masked_or_core
+  rcases h with h | h
+  · exact Or.inl h
+  · exact Or.inr (periodicCore_complete b iv p off ρ hlt hse h)
+
+end PS
+
+namespace PS
+
+/-- the exact requirement of ResourcePeriodicallyInterrupted on one busy interval inside the activity window -/
+def PeriodicInterruptedExact (ρ : Env) (s e : Int) (t : Task) (ivs : List (Int × Int)) (p off : Int) : Prop :=
+  match t.kind with
+  | .var minD maxD _ =>
+      (∀ iv ∈ ivs, ∀ k : Int, (s ≤ iv.1 + off + p * k ∨ iv.2 + off + p * k ≤ s) ∧
+                              (e ≤ iv.1 + off + p * k ∨ iv.2 + off + p * k ≤ e)) ∧
+      minD + periodicOverlapSum s e ivs off p ≤ ρ.i (.tDur t.name) ∧
+      (∀ m, maxD = some m → ρ.i (.tDur t.name) ≤ m + periodicOverlapSum s e ivs off p)
+  | _ => ∀ iv ∈ ivs, iv.2 + off + p * ((s - off) / p) ≤ s ∨ e ≤ iv.1 + off + p * ((s - off) / p)
+
+/-- not strictly inside the repetition of its own period, in folded form -/
+theorem folded_of_not_inside (x off p lo hi : Int)
+    (h : x ≤ lo + off + p * ((x - off) / p) ∨ hi + off + p * ((x - off) / p) ≤ x) :
+    (x - off) % p ≤ lo ∨ hi ≤ (x - off) % p := by
+  have hS := Int.emod_add_mul_ediv (x - off) p
+  generalize (x - off) % p = f at *
+  generalize (x - off) / p = K at *
+  rcases h with h | h
+  · left; omega
+  · right; omega
+
+theorem periodicInterruptedOne_complete (b : BusyRef) (t : Task) (ivs : List (Int × Int)) (p off : Int) (ρ : Env)
+    (hp : 0 < p) (hwf : ∀ iv ∈ ivs, 0 ≤ iv.1 ∧ iv.1 < iv.2 ∧ iv.2 ≤ p) (hse : b.sV ρ ≤ b.eV ρ)
+    (h : PeriodicInterruptedExact ρ (b.sV ρ) (b.eV ρ) t ivs p off) :
+    Sat ρ (periodicInterruptedOne b t ivs p off) := by
+  have hsv : b.s.eval ρ = b.sV ρ := rfl
+  have hev : b.e.eval ρ = b.eV ρ := rfl
+  unfold PeriodicInterruptedExact at h
+  unfold periodicInterruptedOne
+  have hfixed : (∀ iv ∈ ivs, iv.2 + off + p * ((b.sV ρ - off) / p) ≤ b.sV ρ ∨ b.eV ρ ≤ iv.1 + off + p * ((b.sV ρ - off) / p)) →
+      Sat ρ (ivs.map (fun iv => Fml.xor (.ge (Term.mod (.sub b.s (numT off)) (numT p)) (numT iv.2))
+        (.le (.add (Term.mod (.sub b.s (numT off)) (numT p)) (Term.sub b.e b.s)) (numT iv.1)))) := by
+    intro hh a ha
+    obtain ⟨iv, hiv, rfl⟩ := List.mem_map.1 ha
+    exact periodicCore_complete b iv p off ρ (hwf iv hiv).2.1 hse (hh iv hiv)
+  cases hk : t.kind with
+  | var minD maxD al =>
+      simp only [hk] at h ⊢
+      obtain ⟨hins, hmin, hmax⟩ := h
+      have hends : ∀ iv ∈ ivs, ((b.sV ρ - off) % p ≤ iv.1 ∨ iv.2 ≤ (b.sV ρ - off) % p) ∧
+                   ((b.eV ρ - off) % p ≤ iv.1 ∨ iv.2 ≤ (b.eV ρ - off) % p) := by
+        intro iv hiv
+        exact ⟨folded_of_not_inside _ off p iv.1 iv.2 (hins iv hiv _).1,
+               folded_of_not_inside _ off p iv.1 iv.2 (hins iv hiv _).2⟩
+      have hsum := pOverlap_sum ρ b p off hp hse ivs hwf hends
+      simp only [pOverlapTerm, pCrossing, numT] at hsum
+      rw [Sat.append, Sat.append]
+      refine ⟨⟨?_, ?_⟩, ?_⟩
+      · intro a ha
+        obtain ⟨iv, hiv, hab⟩ := List.mem_flatMap.1 ha
+        have hlt := (hwf iv hiv).2.1
+        have hh := hends iv hiv
+        simp only [List.mem_cons, List.mem_nil_iff, or_false] at hab
+        rcases hab with rfl | rfl
+        · simp only [Fml.eval, Term.eval, numT, hsv]
+          intro hiff
+          rcases hh.1 with h1 | h1
+          · have := hiff.1 h1; omega
+          · have := hiff.2 h1; omega
+        · simp only [Fml.eval, Term.eval, numT, hev]
+          intro hiff
+          rcases hh.2 with h1 | h1
+          · have := hiff.1 h1; omega
+          · have := hiff.2 h1; omega
+      · intro a ha
+        simp only [List.mem_singleton] at ha; subst ha
+        simp only [Fml.eval, Term.eval, numT, Task.dVar]
+        rw [hsum]
+        exact hmin
+      · cases maxD with
+        | none => exact Sat.nil
+        | some m =>
+            intro a ha
+            simp only [List.mem_singleton] at ha; subst ha
+            simp only [Fml.eval, Term.eval, numT, Task.dVar]
+            rw [hsum]
+            exact hmax m rfl
+  | fixed d => simp only [hk] at h ⊢; exact hfixed h
+  | zero => simp only [hk] at h ⊢; exact hfixed h
+
+end PS
